@@ -142,7 +142,7 @@ PROPS = {
         level="proof",
         min_obligations=15,
         replay_family="c05",
-        bounded=[dict(family="c05", what="the ASSUMED part: f64_from_parts (floating-point scaling) gives the nearest double on the exact path and the documented accuracy elsewhere; integer boundaries in every radix", bound="165 cases: 24 decimal literals incl. subnormal/extreme/over-long, 9 boundary integers x 5 radix prefixes x 3 signs, 5 over-long integers")],
+        bounded=[dict(family="c05", what="the ASSUMED part: f64_from_parts (floating-point scaling) gives the nearest double on the exact path and the documented accuracy elsewhere; integer boundaries in every radix", bound="185 cases: 24 decimal literals incl. subnormal/extreme/over-long, 9 boundary integers x 5 radix prefixes x 3 signs, 5 over-long integers, 8 integers just past the 64-bit range, 12 magnitudes no double can hold (decimal and #b/#o/#x)")],
         explanation="The number scanner of parse/mod.rs (parse_num_literal, parse_long_integer, parse_num_tail, parse_decimal, parse_exponent, "
                     "parse_radix_literal) is extracted from /repo and verified against a declarative grammar (sp_num_literal / sp_num_tail / sp_decimal / "
                     "sp_exponent written from the C05 statement): digit runs of any length in radix 2/8/10/16, exact u64 value by induction over the digit "
@@ -166,7 +166,7 @@ PROPS = {
         bounded=[dict(family="c06", what="same bytes through &str, &[u8] and io::Read (chunk sizes 1/2/3/64, Interrupted every 2nd/3rd call) give the same values or the same "
                                          "error category and kind - covers the string / character scanners whose content equality across sources is not proved; a hard read error "
                                          "injected at every offset yields an I/O error or the already determined outcome",
-                      bound="39 texts (symbols, strings with escapes, chars, numbers, comments, nested and truncated forms) x 2 option sets x 5 read schedules; error injection at every offset x 2 schedules")],
+                      bound="46 texts (symbols, strings with escapes, chars, numbers, comments, nested and truncated forms) x 2 option sets x 5 read schedules; error injection at every offset x 2 schedules")],
         explanation="The three sources (SliceRead, StrRead, IoRead over LineColIterator) are extracted from /repo and each verified against ONE shared "
                     "contract (trait ReadBase/Read restated with specs): next/peek/discard are exact functions of the unread bytes `rest()`, with the "
                     "protocol `discard only after a successful peek` (ghost `peeked`) enforced at all 40 discard sites; the three symbol scanners all satisfy "
@@ -189,7 +189,7 @@ PROPS = {
         level="proof",
         min_obligations=25,
         replay_family="c08",
-        bounded=[dict(family="c08", what="documented reading of each option-governed token in 4 syntactic positions, compared with a table written from the documentation", bound="33 (token, option set) pairs x 4 positions")],
+        bounded=[dict(family="c08", what="documented reading of each option-governed token in 4 syntactic positions, compared with a table written from the documentation", bound="42 (token, option set) pairs x 4 positions")],
         explanation="parse_token - the only place parser options are consulted - is extracted from /repo and verified against a declarative classifier written from "
                     "the property statement, one clause per option: letter-initial words (postfix keywords, nil under NilSymbol, t under TSymbol, else symbol, with the "
                     "token text = the bytes up to the first symbol terminator, decoded as UTF-8), `:name` under ColonPrefix, `#:name` under Octothorpe (error when off), "
